@@ -2,6 +2,7 @@ package main
 
 import (
 	"fmt"
+	"math/bits"
 	"strings"
 )
 
@@ -19,7 +20,7 @@ func init() {
 			// were asked for (as the stock FileSystemOpener reports absolute paths)
 			canon := func(i int) string { return fmt.Sprintf("f%d", i) }
 			dc := &dictCase{rootName: "f0"}
-			if g%2 == 1 {
+			if bits.OnesCount(uint(g))%2 == 1 { // not g%2: bit 0 of g is the root's include of itself
 				canon = func(i int) string { return fmt.Sprintf("/abs/f%d", i) }
 				dc = &dictCase{rootName: canon(0), rootReq: "f0"}
 			}
